@@ -22,14 +22,25 @@ OpenToks(c, w) ==
     [] c = "SPAN" -> << FixedTok("SPAN"), w >>
     [] c = "DIV"  -> << FixedTok("DIV"), w >>
     [] c = "TBL"  -> << [k |-> "TS"], [k |-> "NL"], [k |-> "VB"], w >>
+\* (round 8) constructs that span lines: the opener stands after the word (and the filler) of a list / paragraph /
+\* indented line, followed by a word of the construct's content; the closer stands on a later line (type "C")
+SpanKinds == {"PRE", "DIV", "SPAN", "REF"}
+SpanOpenTok(c) == FixedTok(c)
+SpanCloseTok(c) == FixedTok(CASE c = "PRE" -> "EPRE" [] c = "DIV" -> "EDIV" [] c = "SPAN" -> "ESPAN" [] c = "REF" -> "EREF")
+OpenFil(line) ==
+  IF "o" \in DOMAIN line THEN << [k |-> "SP", n |-> 1], SpanOpenTok(line.o), [k |-> "TXT", a |-> <<"x">>] >> ELSE <<>>
 Tokens(line, i) ==
   LET w == [k |-> "TXT", a |-> <<W(i)>>] IN
   CASE line.t = "H" -> << [k |-> "HS", l |-> line.l], w >> \o Fil(line) \o << [k |-> "HE", l |-> line.l], [k |-> "NL"] >>
-    [] line.t = "L" -> << [k |-> "LP", p |-> line.p], [k |-> "SP", n |-> 1], w >> \o Fil(line) \o << [k |-> "NL"] >>
-    [] line.t = "P" -> << w >> \o Fil(line) \o << [k |-> "NL"] >>
+    [] line.t = "L" -> << [k |-> "LP", p |-> line.p], [k |-> "SP", n |-> 1], w >> \o Fil(line) \o OpenFil(line) \o << [k |-> "NL"] >>
+    [] line.t = "P" -> << w >> \o Fil(line) \o OpenFil(line) \o << [k |-> "NL"] >>
     \* an indented line: the blank at the line start opens (or continues) a preformatted block, which is still
     \* open when the next line arrives
-    [] line.t = "I" -> << [k |-> "SP", n |-> 1], w >> \o Fil(line) \o << [k |-> "NL"] >>
+    [] line.t = "I" -> << [k |-> "SP", n |-> 1], w >> \o Fil(line) \o OpenFil(line) \o << [k |-> "NL"] >>
+    \* a continuation line inside a construct that spans lines; the line with its closer
+    [] line.t = "X" -> << w, [k |-> "NL"] >>
+    [] line.t = "C" -> (IF line.b THEN << SpanCloseTok(line.c), [k |-> "SP", n |-> 1], w >> ELSE << w, SpanCloseTok(line.c) >>)
+                       \o << [k |-> "NL"] >>
     \* a line that opens a construct and leaves it open (unbalanced; outside the property)
     [] line.t = "O" -> OpenToks(line.c, w) \o << [k |-> "NL"] >>
     [] line.t = "R" -> << [k |-> "HR"], [k |-> "NL"] >>
@@ -70,6 +81,14 @@ ModelDevs == {"BeglineFlagNotCounted"}
 \* subtitle_start_fn is entered only while a SECTION is open, so that a block that is still open when the FIRST
 \* heading of the document arrives (a preformatted block: an indented line directly before it) is not closed
 NestDevs == {"TitleLoopNeedsSection"}
+\* Model deviation of the closer of a spanning construct (Parser.tla, TagEndFn; Demo_ParserRef_premode.cfg): </pre>
+\* leaves the non-interpreting mode only together with a PRE node on top of the stack -- a PRE node that was
+\* closed with the list item it was opened in (text at the start of the next line) leaves the mode switched on
+SpanDevs == {"PreModeLeftOnStrayEnd"}
+\* the persistent MODE of the parser (ctx.pre_parse, ctx.begline_disable_counter, ctx.begline_enabled).  The law:
+\* when every construct of the document has been closed the mode is the initial one
+ModeOf(st) == [pre |-> st.pre, beg |-> st.beg, en |-> st.en]
+InitialMode == [pre |-> FALSE, beg |-> 0, en |-> TRUE]
 ArgKinds == {"LINK", "TEMPLATE", "TEMPLATE_ARG", "PARSER_FN", "URL"}      \* HAVE_ARGS_KIND_FLAGS
 FillKind(m) == CASE m = "T" -> "TEMPLATE" [] m = "A" -> "TEMPLATE_ARG" [] m = "L" -> "LINK" [] m = "E" -> "URL"
 
